@@ -1,4 +1,5 @@
 import UralModel.Lemmas.Youtube
+import UralModel.Lemmas.YoutubeInfix
 import UralModel.Lemmas.StrSplit
 /-!
 Lemmas for the round trip of `ural/youtube.py`: what `infer_redirection` and the regex
@@ -59,20 +60,6 @@ theorem matchLit_mem (L : List Char) (u r : Str) (h : matchLit L u = some r) (p 
   obtain ⟨k, hk⟩ := List.getElem?_of_mem hm
   exact List.mem_of_getElem? (matchLit_getElem L u r h k p hk hp)
 
-/-- a successful match of the literal against a prefix survives an extension of the subject -/
-theorem matchLit_append (L : List Char) (x y r : Str) (h : matchLit L x = some r) :
-    matchLit L (x ++ y) = some (r ++ y) := by
-  induction L generalizing x with
-  | nil => simp [matchLit] at h ⊢; rw [h]
-  | cons q qs ih =>
-    cases x with
-    | nil => simp [matchLit] at h
-    | cons c cs =>
-      simp only [matchLit, List.cons_append] at h ⊢
-      split at h
-      · rename_i hc; rw [if_pos hc]; exact ih cs h
-      · simp at h
-
 /-- a literal that ends with a self-matching character `q` cannot match across the border of
 `x ++ y` when `y` holds no `q`: the match lies within `x` -/
 theorem matchLit_within (L : List Char) (q : Char) (hq : q.toNat < 97) (hl : L.getLast? = some q)
@@ -119,6 +106,29 @@ theorem nextV_none (s : Str) (h : '%' ∉ s) : (nextV s).or (nestedNextV s) = no
   have h1 : nextV s = none := litValueSearch_none_of_not_mem _ _ '%' (by decide) (by decide) s h
   have h2 : nestedNextV s = none := litValueSearch_none_of_not_mem _ _ '%' (by decide) (by decide) s h
   rw [h1, h2]; rfl
+
+/-- neither continuation pattern (`NEXT_V_RE`, `NESTED_NEXT_V_RE`) is found in `s` -/
+def NoCont (s : Str) : Prop := nextV s = none ∧ nestedNextV s = none
+
+instance (s : Str) : Decidable (NoCont s) := by unfold NoCont; infer_instance
+
+theorem noCont_or (s : Str) (h : NoCont s) : (nextV s).or (nestedNextV s) = none := by
+  rw [h.1, h.2]; rfl
+
+theorem noCont_of_or (s : Str) (h : (nextV s).or (nestedNextV s) = none) : NoCont s := by
+  cases h1 : nextV s with
+  | some v => rw [h1] at h; simp at h
+  | none =>
+    rw [h1] at h
+    exact ⟨h1, by simpa using h⟩
+
+/-- a piece of a string without continuation pattern has none either -/
+theorem noCont_of_infix (s u : Str) (hs : s <:+: u) (h : NoCont u) : NoCont s :=
+  ⟨litValueSearch_none_of_infix _ _ s u hs h.1, litValueSearch_none_of_infix _ _ s u hs h.2⟩
+
+theorem noCont_of_no_pct (s : Str) (h : '%' ∉ s) : NoCont s :=
+  ⟨litValueSearch_none_of_not_mem _ _ '%' (by decide) (by decide) s h,
+   litValueSearch_none_of_not_mem _ _ '%' (by decide) (by decide) s h⟩
 
 /-! ## `REDIRECTION_DOMAINS_RE.split` on a url whose tail has no `/` -/
 
@@ -329,6 +339,14 @@ theorem litValueSearch_skip (lit stops : List Char) (x y : Str) (h : searchClean
     simp only [List.cons_append, litValueSearch, hh]
     exact ih h.2
 
+/-- a fixed text in which no position can start either continuation pattern, followed by text
+without continuation pattern -/
+theorem noCont_prefix (P s : Str) (h1 : searchClean "next=%2fwatch%3fv%3d".toList P = true)
+    (h2 : searchClean "next%3d%252fwatch%253fv%253d".toList P = true) (h : NoCont s) : NoCont (P ++ s) := by
+  unfold NoCont nextV nestedNextV at h ⊢
+  rw [litValueSearch_skip _ _ P s h1, litValueSearch_skip _ _ P s h2]
+  exact h
+
 /-- a literal whose `k`-th character is the self-matching `q` does not match inside text
 without `q`, when the `k` characters that follow the text are not `q` either -/
 theorem litValueSearch_skip_text (lit stops : List Char) (k : Nat) (q : Char) (hk : lit[k]? = some q)
@@ -378,7 +396,7 @@ theorem isIdChar_ne (c : Char) (h : isIdChar c = true) :
 
 /-- `QUERY_LIST_RE.search(url)` on `…watch?v=<id>&list=<playlist>` -/
 theorem queryList_video_some (id p : Str) (hid : ∀ c ∈ id, isIdChar c = true) (hp : p ≠ [])
-    (hpc : ∀ c ∈ p, c ≠ '&' ∧ c ≠ '#' ∧ c ≠ '?') :
+    (hpc : ∀ c ∈ p, c ≠ '&' ∧ c ≠ '#' ∧ c ≠ '?' ∧ c ≠ '/' ∧ c ≠ '%') :
     queryList (videoPrefix ++ id ++ (listInfix ++ p)) = some p := by
   unfold queryList
   rw [List.append_assoc, litValueSearch_skip _ _ videoPrefix _ (by decide)]
@@ -391,12 +409,12 @@ theorem queryList_video_some (id p : Str) (hid : ∀ c ∈ id, isIdChar c = true
       | 1, _ => simp [listInfix]
       | 2, _ => simp [listInfix]
       | 3, _ => simp [listInfix])]
-  have h0 : litValueHere "list=".toList stopsAmpHashQm (listInfix ++ p) = none := by
+  have h0 : litValueHere "list=".toList stopsList (listInfix ++ p) = none := by
     unfold litValueHere
     have : matchLit "list=".toList (listInfix ++ p) = none :=
       matchLit_none_of_mismatch _ listInfix p (by decide)
     rw [this]
-  have h1 : litValueHere "list=".toList stopsAmpHashQm ("list=".toList ++ p) = some p := by
+  have h1 : litValueHere "list=".toList stopsList ("list=".toList ++ p) = some p := by
     unfold litValueHere
     have : matchLit "list=".toList ("list=".toList ++ p) = some ([] ++ p) :=
       matchLit_append _ "list=".toList p [] (by decide)
@@ -404,7 +422,7 @@ theorem queryList_video_some (id p : Str) (hid : ∀ c ∈ id, isIdChar c = true
     simp only [List.nil_append]
     rw [valueRun_of_all _ p (fun c hc => by
       have := hpc c hc
-      simp [stopsAmpHashQm, this.1, this.2.1, this.2.2])]
+      simp [stopsList, this.1, this.2.1, this.2.2.1, this.2.2.2.1, this.2.2.2.2])]
     simp [hp]
   have e : listInfix ++ p = '&' :: ("list=".toList ++ p) := by simp [listInfix]
   rw [e] at h0 ⊢
@@ -418,7 +436,7 @@ theorem queryList_video_none (id : Str) (hid : ∀ c ∈ id, isIdChar c = true) 
     queryList (videoPrefix ++ id) = none := by
   unfold queryList
   rw [litValueSearch_skip _ _ videoPrefix _ (by decide)]
-  have := litValueSearch_skip_text "list=".toList stopsAmpHashQm 4 '=' (by decide) (by decide) id []
+  have := litValueSearch_skip_text "list=".toList stopsList 4 '=' (by decide) (by decide) id []
     (fun h => (isIdChar_ne _ (hid _ h)).1 rfl) (by intro j _; simp)
   rw [List.append_nil] at this
   rw [this]
@@ -469,25 +487,26 @@ def KnowsWww (puny : Str → Str) (t : T) : Prop :=
 /-! ## the hypotheses of the round trip -/
 
 /-- the characters a name / id taken from the path must avoid: the url delimiters, `&`
-(a redirect hint could hide behind it), `%` (the continuation patterns), TAB / CR / LF -/
+(a redirect hint could hide behind it), TAB / CR / LF -/
 def Plain (s : Str) : Prop :=
-  ∀ c ∈ s, c ≠ '/' ∧ c ≠ '?' ∧ c ≠ '#' ∧ c ≠ '&' ∧ c ≠ '%' ∧ isUnsafeUrlChar c = false
+  ∀ c ∈ s, c ≠ '/' ∧ c ≠ '?' ∧ c ≠ '#' ∧ c ≠ '&' ∧ isUnsafeUrlChar c = false
 
 instance (s : Str) : Decidable (Plain s) := by unfold Plain; infer_instance
 
-/-- the characters a playlist id must avoid (TAB / CR / LF are allowed) -/
+/-- the characters a playlist id must avoid: those at which `QUERY_LIST_RE` stops, TAB / CR / LF -/
 def PlainPlaylist (p : Str) : Prop :=
-  p ≠ [] ∧ ∀ c ∈ p, c ≠ '&' ∧ c ≠ '#' ∧ c ≠ '?' ∧ c ≠ '/' ∧ c ≠ '%'
+  p ≠ [] ∧ ∀ c ∈ p, c ≠ '&' ∧ c ≠ '#' ∧ c ≠ '?' ∧ c ≠ '/' ∧ c ≠ '%' ∧ isUnsafeUrlChar c = false
 
 instance (s : Str) : Decidable (PlainPlaylist s) := by unfold PlainPlaylist; infer_instance
 
-/-- the region of records on which the round trip is proved -/
+/-- what the round trip needs from a record, beyond the validators (`Valid`); all of it is
+guaranteed by the parser (`parse_good`, `Lemmas/YoutubeFields.lean`) -/
 def Good : Record → Prop
   | .video _ none => True
   | .video _ (some p) => PlainPlaylist p
-  | .user name => Plain name ∧ Stripped name
-  | .channel (some cid) _ => Plain cid ∧ Stripped cid
-  | .channel none (some name) => Plain name
+  | .user name => Plain name ∧ Stripped name ∧ NoCont name
+  | .channel (some cid) _ => Plain cid ∧ Stripped cid ∧ NoCont cid
+  | .channel none (some name) => Plain name ∧ NoCont name
   | .channel none none => False
   | .short _ => True
 
@@ -535,12 +554,15 @@ theorem infer_video (ob : Obligations) (id : Str) (hid : ∀ c ∈ id, isIdChar 
 /-! ## from the url to the routes -/
 
 theorem parse_of_canonical (puny : Str → Str) (t : T) (url : Str) (fix : Bool) (parsed : SplitResult)
-    (h1 : infer url = url) (h2 : (nextV url).or (nestedNextV url) = none)
+    (h1 : infer url = url) (h0 : stripUnsafe url = url) (h2 : (nextV url).or (nestedNextV url) = none)
     (h3 : safe_urlsplit url = some parsed) (h4 : isYoutubeParsed puny t parsed = true) :
     parse_youtube_url puny t url fix = parseSplit fix parsed (queryList url) := by
   unfold parse_youtube_url
-  simp only [h1, h2, h3, h4, Bool.not_true]
+  simp only [h1, h0, h2, h3, h4, Bool.not_true]
   rfl
+
+theorem stripUnsafe_eq_self (u : Str) (h : ∀ c ∈ u, isUnsafeUrlChar c = false) : stripUnsafe u = u :=
+  List.filter_eq_self.mpr (fun c hc => by simp [h c hc])
 
 theorem isYoutubeParsed_www (puny : Str → Str) (t : T) (hT : KnowsWww puny t) (path query : Str) :
     isYoutubeParsed puny t ⟨"https".toList, "www.youtube.com".toList, path, query, []⟩ = true := by
@@ -777,30 +799,34 @@ theorem parse_path_url (puny : Str → Str) (t : T) (hT : KnowsWww puny t) (ob :
     (route s : Str) (fix : Bool)
     (hP1 : domainSplit ("https://www.youtube.com".toList ++ route) = none)
     (hP2 : prefixClean ("https://www.youtube.com".toList ++ route) true = true)
+    (hP3 : searchClean "next=%2fwatch%3fv%3d".toList ("https://www.youtube.com".toList ++ route) = true)
+    (hP4 : searchClean "next%3d%252fwatch%253fv%253d".toList ("https://www.youtube.com".toList ++ route) = true)
     (hroute : ∃ r, route = '/' :: r)
-    (hroutec : ∀ c ∈ route, c ≠ '?' ∧ c ≠ '#' ∧ c ≠ '%' ∧ isUnsafeUrlChar c = false)
-    (hs : Plain s) :
+    (hroutec : ∀ c ∈ route, c ≠ '?' ∧ c ≠ '#' ∧ isUnsafeUrlChar c = false)
+    (hs : Plain s) (hn : NoCont s) :
     parse_youtube_url puny t ("https://www.youtube.com".toList ++ route ++ s) fix =
       routePath fix (route ++ s) [] (queryList ("https://www.youtube.com".toList ++ route ++ s)) := by
   have hpath : ∀ c ∈ route ++ s, c ≠ '?' ∧ c ≠ '#' ∧ isUnsafeUrlChar c = false := by
     intro c hc
     rcases List.mem_append.mp hc with h | h
-    · exact ⟨(hroutec c h).1, (hroutec c h).2.1, (hroutec c h).2.2.2⟩
-    · exact ⟨(hs c h).2.1, (hs c h).2.2.1, (hs c h).2.2.2.2.2⟩
+    · exact hroutec c h
+    · exact ⟨(hs c h).2.1, (hs c h).2.2.1, (hs c h).2.2.2.2⟩
   have hsplit := safe_urlsplit_https "www.youtube.com".toList (route ++ s) [] wwwHostOk
     (by obtain ⟨r, hr⟩ := hroute; exact ⟨r ++ s, by rw [hr]; rfl⟩) hpath (by simp)
   simp only [if_true, List.append_nil] at hsplit
   have heq : "https://www.youtube.com".toList ++ route ++ s =
       "https://".toList ++ "www.youtube.com".toList ++ (route ++ s) := by simp
+  have hsafe : stripUnsafe ("https://www.youtube.com".toList ++ route ++ s) =
+      "https://www.youtube.com".toList ++ route ++ s := by
+    apply stripUnsafe_eq_self
+    intro c hc
+    rw [List.append_assoc] at hc
+    rcases List.mem_append.mp hc with h | h
+    · exact (show ∀ c ∈ "https://www.youtube.com".toList, isUnsafeUrlChar c = false by decide) c h
+    · exact (hpath c h).2.2
   rw [parse_of_canonical puny t _ fix _
     (infer_canonical ob _ s hP1 hP2 (fun c hc => ⟨(hs c hc).1, (hs c hc).2.1, (hs c hc).2.2.2.1⟩))
-    (nextV_none _ (by
-      intro h
-      rcases List.mem_append.mp h with h | h
-      · rcases List.mem_append.mp h with h | h
-        · revert h; decide
-        · exact (hroutec _ h).2.2.1 rfl
-      · exact (hs _ h).2.2.2.2.1 rfl))
+    hsafe (noCont_or _ (noCont_prefix _ s hP3 hP4 hn))
     (heq ▸ hsplit) (isYoutubeParsed_www puny t hT _ _)]
   exact parseSplit_www fix _ _ _
 
@@ -816,7 +842,8 @@ theorem parse_video_url (puny : Str → Str) (t : T) (hT : KnowsWww puny t) (ob 
   have hid := valid_id id hv hl
   -- the tail after the id, and the playlist the regex finds again
   obtain ⟨tail, htail, hurl, hql, hinf⟩ : ∃ tail : Str,
-      (tail = [] ∨ ∃ p, tail = listInfix ++ p ∧ ∀ c ∈ p, c ≠ '/' ∧ c ≠ '?' ∧ c ≠ '&' ∧ c ≠ '#' ∧ c ≠ '%') ∧
+      (tail = [] ∨ ∃ p, tail = listInfix ++ p ∧
+        ∀ c ∈ p, c ≠ '/' ∧ c ≠ '?' ∧ c ≠ '&' ∧ c ≠ '#' ∧ c ≠ '%' ∧ isUnsafeUrlChar c = false) ∧
       recordUrl (.video id pl) = videoPrefix ++ (id ++ tail) ∧
       queryList (videoPrefix ++ (id ++ tail)) = pl ∧
       (pl = none → tail = []) := by
@@ -828,11 +855,12 @@ theorem parse_video_url (puny : Str → Str) (t : T) (hT : KnowsWww puny t) (ob 
       have hp : PlainPlaylist p := hg
       refine ⟨listInfix ++ p, Or.inr ⟨p, rfl, fun c hc => ?_⟩, ?_, ?_, fun h => by simp at h⟩
       · have := hp.2 c hc
-        exact ⟨this.2.2.2.1, this.2.2.1, this.1, this.2.1, this.2.2.2.2⟩
+        exact ⟨this.2.2.2.1, this.2.2.1, this.1, this.2.1, this.2.2.2.2.1, this.2.2.2.2.2⟩
       · show videoPrefix ++ id ++ (if p ≠ [] then listInfix ++ p else []) = _
         simp [hp.1]
       · rw [← List.append_assoc]
-        exact queryList_video_some id p hid hp.1 (fun c hc => ⟨(hp.2 c hc).1, (hp.2 c hc).2.1, (hp.2 c hc).2.2.1⟩)
+        exact queryList_video_some id p hid hp.1
+          (fun c hc => ⟨(hp.2 c hc).1, (hp.2 c hc).2.1, (hp.2 c hc).2.2.1, (hp.2 c hc).2.2.2.1, (hp.2 c hc).2.2.2.2.1⟩)
   rw [hurl]
   have hpct : '%' ∉ videoPrefix ++ (id ++ tail) := by
     intro h
@@ -845,7 +873,20 @@ theorem parse_video_url (puny : Str → Str) (t : T) (hT : KnowsWww puny t) (ob 
         · rw [e] at h
           rcases List.mem_append.mp h with h | h
           · revert h; decide
-          · exact (hp _ h).2.2.2.2 rfl
+          · exact (hp _ h).2.2.2.2.1 rfl
+  have hsafe : stripUnsafe (videoPrefix ++ (id ++ tail)) = videoPrefix ++ (id ++ tail) := by
+    apply stripUnsafe_eq_self
+    intro c hc
+    rcases List.mem_append.mp hc with h | h
+    · exact (show ∀ c ∈ videoPrefix, isUnsafeUrlChar c = false by decide) c h
+    · rcases List.mem_append.mp h with h | h
+      · exact (isIdChar_ne _ (hid _ h)).2.2.2.2.2.2
+      · rcases htail with e | ⟨p, e, hp⟩
+        · rw [e] at h; simp at h
+        · rw [e] at h
+          rcases List.mem_append.mp h with h | h
+          · exact (show ∀ c ∈ listInfix, isUnsafeUrlChar c = false by decide) c h
+          · exact (hp _ h).2.2.2.2.2
   have hinfer := infer_video ob id hid tail (by
     rcases htail with e | ⟨p, e, hp⟩
     · exact Or.inl e
@@ -879,7 +920,7 @@ theorem parse_video_url (puny : Str → Str) (t : T) (hT : KnowsWww puny t) (ob 
     (by rw [hfilter]; simp)
   have heq : videoPrefix ++ (id ++ tail) =
       "https://".toList ++ "www.youtube.com".toList ++ "/watch".toList ++ '?' :: ("v=".toList ++ id ++ tail) := rfl
-  rw [parse_of_canonical puny t _ true _ hinfer (nextV_none _ hpct) (heq ▸ hsplit)
+  rw [parse_of_canonical puny t _ true _ hinfer hsafe (nextV_none _ hpct) (heq ▸ hsplit)
     (isYoutubeParsed_www puny t hT _ _), parseSplit_www, hql, hfilter]
   exact routePath_watch id _ pl hv hl hrest
 
@@ -894,32 +935,33 @@ theorem reparse_of_good (puny : Str → Str) (t : T) (hT : KnowsWww puny t) (ob 
     have hid := valid_id id hv.1 (hv.2 rfl)
     have hplain : Plain id := fun c hc =>
       let h := isIdChar_ne c (hid c hc)
-      ⟨h.2.2.2.2.1, h.2.2.2.1, h.2.2.1, h.2.1, h.2.2.2.2.2.1, h.2.2.2.2.2.2⟩
-    have := parse_path_url puny t hT ob "/shorts/".toList id true (by decide) (by decide) ⟨_, rfl⟩
-      (by decide) hplain
+      ⟨h.2.2.2.2.1, h.2.2.2.1, h.2.2.1, h.2.1, h.2.2.2.2.2.2⟩
+    have hnc : NoCont id := noCont_of_no_pct id (fun h => (isIdChar_ne _ (hid _ h)).2.2.2.2.2.1 rfl)
+    have := parse_path_url puny t hT ob "/shorts/".toList id true (by decide) (by decide) (by decide) (by decide)
+      ⟨_, rfl⟩ (by decide) hplain hnc
     have hu : recordUrl (.short id) = "https://www.youtube.com".toList ++ "/shorts/".toList ++ id := rfl
     rw [hu, this]
     exact routePath_shorts id [] _ hv.1 (hv.2 rfl)
   | .user name, hv, hg =>
-    have := parse_path_url puny t hT ob "/user/".toList name true (by decide) (by decide) ⟨_, rfl⟩
-      (by decide) hg.1
+    have := parse_path_url puny t hT ob "/user/".toList name true (by decide) (by decide) (by decide) (by decide)
+      ⟨_, rfl⟩ (by decide) hg.1 hg.2.2
     have hu : recordUrl (.user name) = "https://www.youtube.com".toList ++ "/user/".toList ++ name := rfl
     rw [hu, this]
-    exact routePath_user true name [] _ hv (fun h => (hg.1 _ h).1 rfl) (fun h => (hg.1 _ h).2.2.2.1 rfl) hg.2
+    exact routePath_user true name [] _ hv (fun h => (hg.1 _ h).1 rfl) (fun h => (hg.1 _ h).2.2.2.1 rfl) hg.2.1
   | .channel (some cid) none, hv, hg =>
-    have := parse_path_url puny t hT ob "/channel/".toList cid true (by decide) (by decide) ⟨_, rfl⟩
-      (by decide) hg.1
+    have := parse_path_url puny t hT ob "/channel/".toList cid true (by decide) (by decide) (by decide) (by decide)
+      ⟨_, rfl⟩ (by decide) hg.1 hg.2.2
     have hu : recordUrl (.channel (some cid) none) =
         "https://www.youtube.com".toList ++ "/channel/".toList ++ cid := rfl
     rw [hu, this]
-    exact routePath_channel true cid [] _ hv (fun h => (hg.1 _ h).1 rfl) (fun h => (hg.1 _ h).2.2.2.1 rfl) hg.2
+    exact routePath_channel true cid [] _ hv (fun h => (hg.1 _ h).1 rfl) (fun h => (hg.1 _ h).2.2.2.1 rfl) hg.2.1
   | .channel none (some name), hv, hg =>
-    have := parse_path_url puny t hT ob "/".toList name true (by decide) (by decide) ⟨_, rfl⟩
-      (by decide) hg
+    have := parse_path_url puny t hT ob "/".toList name true (by decide) (by decide) (by decide) (by decide)
+      ⟨_, rfl⟩ (by decide) hg.1 hg.2
     have hu : recordUrl (.channel none (some name)) =
         "https://www.youtube.com".toList ++ "/".toList ++ name := rfl
     rw [hu, this]
-    exact routePath_name ob true name [] _ hv.1 (fun h => (hg _ h).1 rfl) (fun h => (hg _ h).2.2.2.1 rfl)
+    exact routePath_name ob true name [] _ hv.1 (fun h => (hg.1 _ h).1 rfl) (fun h => (hg.1 _ h).2.2.2.1 rfl)
       hv.2.1 hv.2.2
 
 end Ural.Youtube
